@@ -118,7 +118,7 @@ B("C08", "no-pending-release", F_BASE, "            self.CLASS_LEVEL_CACHE.pendi
 B("C08", "generator-body-only-try", F_GENERATOR, "    try:\n        # Check that the call has a valid instance of the generator's parameter-class\n        if not isinstance(call.params, call.gen.Params):\n            msg = f\"Invalid Generator Call {call}: {call.gen.Params} instance required, got {call.params}\"\n            raise RuntimeError(msg)\n",
   "    if not isinstance(call.params, call.gen.Params):\n        msg = f\"Invalid Generator Call {call}: {call.gen.Params} instance required, got {call.params}\"\n        raise RuntimeError(msg)\n    try:\n", "C08.1")
 B("C08", "done-in-finally", F_BASE, "        except Exception as e:\n            # The visit failed.", "        finally:\n            self.CLASS_LEVEL_CACHE.done.add(module)\n        try:\n            pass\n        except Exception as e:\n            # The visit failed.", "C08.2", accept_error=True)
-T("C08", "try-finally-style", F_GENERATOR, "    except Exception:\n        # The call failed, and is no longer in flight. A later, identical call runs the generator again.\n        the_cache.stack.pop()\n        the_cache.pending.discard(call)\n        raise\n", "    except BaseException:\n        the_cache.pending.discard(call)\n        the_cache.stack.pop()\n        raise\n")
+T("C08", "try-finally-style", F_GENERATOR, "    except Exception:\n        # The call failed, and is no longer in flight. A later, identical call runs the generator again.\n        the_cache.stack.pop()\n        if call.gen.enable_cache:\n            # Only cached calls are tracked (and hashed): an un-cached call may have un-hashable parameters.\n            the_cache.pending.discard(call)\n        raise\n", "    except BaseException:\n        if call.gen.enable_cache:\n            the_cache.pending.discard(call)\n        the_cache.stack.pop()\n        raise\n")
 
 # ------------------------------------------------------------------ C09
 B("C09", "names-verbatim-strings", F_PARAMS, "    if isinstance(val, str):\n        return repr(val)\n    return str(val)", "    return str(val)", "C09.2")
@@ -211,6 +211,8 @@ B("C18", "bundle-delattr-removed", F_BUNDLE, "    def __delattr__(self, __name: 
 B("C18", "port-view-inverted", F_MODULE, "        if val.vis == Visibility.PORT:\n            type_ctr = module.ports\n        else:\n            type_ctr = module.signals", "        if val.vis == Visibility.PORT:\n            type_ctr = module.signals\n        else:\n            type_ctr = module.ports", "C18.5")
 B("C18", "bundle-never-frozen", F_BASE, "            bundle_def._elaborated = True\n", "", "C18.7")
 B("C18", "parent-link-conditional", F_MODULE, "    val._parent_module = module\n\n    # And return our newly-added attribute", "    if isinstance(val, Signal):\n        val._parent_module = module\n\n    # And return our newly-added attribute", "C18.4")
+
+B("C08", "handler-hashes-uncached-call", F_GENERATOR, "        if call.gen.enable_cache:\n            # Only cached calls are tracked (and hashed): an un-cached call may have un-hashable parameters.\n            the_cache.pending.discard(call)\n        raise", "        the_cache.pending.discard(call)\n        raise", "C08.1")
 
 # ------------------------------------------------------------------ C19
 B("C19", "series-net-too-wide", F_GENERATORS, "i = m.add(h.Signal(name=\"i\", width=params.nser - 1))", "i = m.add(h.Signal(name=\"i\", width=params.nser))", "C19.1")
